@@ -77,33 +77,7 @@ def gen_batch(rng, N):
     groups = []
     shape = rng.random()
     if shape < 0.12 and len(sites) >= 3:
-        # directed stream: twins whose groups name the same other requests but are shaped differently
-        # (what compare_reqs.same_disj accepts): r1 in two pair groups, its twin r2 in one triple / several twins
-        a, b = rng.sample(sites, 2)
-        others = []
-        while len(others) < 2:
-            c, d = rng.sample(sites, 2)
-            if (c, d) != (a, b) and (c, d) not in others:
-                others.append((c, d))
-
-        def plain(k, s, t):
-            return {'id': str(k), 'src': f'trx {s}', 'dst': f'trx {t}', 'nodes': [], 'loose': [], 'style': 'none',
-                    'mode': 'mode 1', 'bidir': False}
-        v = rng.random()
-        if v < 0.35:
-            # same shape: the twins 1 and 2 are merged, their groups follow the merged request
-            reqs = [plain(0, *others[0]), plain(1, a, b), plain(2, a, b), plain(3, *others[1])]
-            gl = rng.choice([[['0', '1'], ['0', '2']], [['1', '0', '3'], ['3', '2', '0']],
-                             [['0', '1'], ['3', '1'], ['2', '0'], ['2', '3']]])
-        elif v < 0.7:
-            reqs = [plain(0, *others[0]), plain(1, a, b), plain(2, a, b), plain(3, *others[1])]
-            gl = [['3', '1'], ['0', '1'], ['0', '3', '2']]
-        else:
-            reqs = [plain(0, a, b), plain(1, *others[0]), plain(2, a, b), plain(3, a, b)]
-            gl = [['1', '2'], ['3', '2'], ['3', '1', '0']]
-        if rng.random() < 0.3:
-            rng.shuffle(gl)
-        return reqs, [{'id': f'd{i}', 'reqs': g} for i, g in enumerate(gl)]
+        return gen_shapes_batch(rng, N)
     if shape < 0.45:
         groups.append(rng.sample(ids, 2))
     elif shape < 0.6 and nreq >= 3:
@@ -118,6 +92,194 @@ def gen_batch(rng, N):
         if rng.random() < 0.3:
             groups.append(list(g))
     return reqs, [{'id': f'd{i}', 'reqs': g} for i, g in enumerate(groups)]
+
+
+def gen_shapes_batch(rng, N):
+    """planning-level stream for requests_aggregation: 2-3 identical requests (twins) declared in groups whose shapes are
+    equal, nested (one twin has the groups of the other plus extra ones), or unrelated; every listing order of requests,
+    groups and members.  Only twins with the same group shape may be merged; whatever is merged, every group of the
+    input must still be honoured by the final routes."""
+    sites = N.sites
+    a, b = rng.sample(sites, 2)
+    others_ends = []
+    for _ in range(50):
+        c, d = rng.sample(sites, 2)
+        if (c, d) != (a, b) and (c, d) not in others_ends:
+            others_ends.append((c, d))
+        if len(others_ends) == rng.choice([2, 2, 3]):
+            break
+    ntw = rng.choice([2, 2, 2, 3])
+    slots = ['t'] * ntw + ['o'] * len(others_ends)
+    rng.shuffle(slots)
+    reqs, twins, others = [], [], []
+    oe = list(others_ends)
+    for k, kind in enumerate(slots):
+        s_, t_ = (a, b) if kind == 't' else oe.pop()
+        reqs.append({'id': str(k), 'src': f'trx {s_}', 'dst': f'trx {t_}', 'nodes': [], 'loose': [], 'style': 'none',
+                     'mode': 'mode 1', 'bidir': False})
+        (twins if kind == 't' else others).append(str(k))
+
+    def some_others():
+        return rng.sample(others, rng.choice([1, 1, 2]) if len(others) > 1 else 1)
+    base = [some_others() for _ in range(rng.choice([1, 1, 2, 3]))]
+    shapes = {twins[0]: base}
+    for tw in twins[1:]:
+        v = rng.random()
+        if v < 0.35:
+            sh = [list(g) for g in base]
+        elif v < 0.7:
+            sh = [list(g) for g in base] + [some_others() for _ in range(rng.choice([1, 1, 2]))]
+        elif v < 0.85 and len(base) > 1:
+            sh = [list(g) for g in base[:-1]]
+        else:
+            sh = [some_others() for _ in range(rng.choice([1, 2]))]
+        shapes[tw] = sh
+    gl = []
+    for tw in twins:
+        for g in shapes[tw]:
+            members = [tw] + list(g)
+            rng.shuffle(members)
+            gl.append(members)
+    if rng.random() < 0.7:
+        rng.shuffle(gl)
+    return reqs, [{'id': f'd{i}', 'reqs': g} for i, g in enumerate(gl)]
+
+
+def hop_elements_by_kind(N, x, y):
+    """line elements of the hop roadm x -> roadm y sorted into kinds"""
+    from gnpy.core.elements import Fiber, Fused
+    els = line_elements(N, x, y)
+    out = {}
+    for k, u in enumerate(els):
+        node = N.nodes[N.id[u]]
+        if isinstance(node, Fiber):
+            kind = 'fibre'
+        elif isinstance(node, Fused):
+            kind = 'fused'
+        elif k == 0:
+            kind = 'booster'
+        elif k == len(els) - 1:
+            kind = 'preamp'
+        else:
+            kind = 'inline_amp'
+        out.setdefault(kind, []).append(u)
+    return out
+
+
+def gen_vector_batch(rng, N):
+    """a pair of requests declared disjoint, each with an include list over ALL element kinds of some path (fibre
+    spans, in-line amplifiers, pre-amplifiers, boosters, Fused, ROADMs), STRICT, LOOSE or mixed"""
+    sites = N.sites
+    reqs = []
+    a, b = rng.sample(sites, 2)
+    for k in range(2):
+        if k == 1 and rng.random() < 0.6:
+            a, b = rng.sample(sites, 2)
+        nodes, style = [], 'none'
+        sp = simple_paths_sites(N.topo, a, b, rng, limit=20)
+        if sp and rng.random() < 0.85:
+            p = rng.choice(sp)
+            hops = [h for h in zip(p, p[1:]) if rng.random() < 0.6] or [(p[0], p[1])]
+            kinds_used = []
+            for x, y in hops:
+                by = hop_elements_by_kind(N, x, y)
+                kind = rng.choice(sorted(by))
+                nodes.append(rng.choice(by[kind]))
+                kinds_used.append(kind)
+                if rng.random() < 0.2:
+                    nodes.append(f'roadm {y}')
+            style = 'vec_' + '+'.join(sorted(set(kinds_used)))
+            if rng.random() < 0.1:
+                rng.shuffle(nodes)
+        m = rng.random()
+        loose = (['STRICT'] * len(nodes) if m < 0.4 else ['LOOSE'] * len(nodes) if m < 0.8
+                 else [rng.choice(['STRICT', 'LOOSE']) for _ in nodes])
+        reqs.append({'id': str(k), 'src': f'trx {a}', 'dst': f'trx {b}', 'nodes': nodes, 'loose': loose, 'style': style,
+                     'mode': rng.choice(['mode 1', None]), 'bidir': rng.random() < 0.3})
+    return reqs, [{'id': 'd0', 'reqs': rng.sample(['0', '1'], 2)}]
+
+
+def gen_vector_case(rng):
+    n = rng.choice([3, 4, 4, 5, 5, 6])
+    topo = gen_topo(rng, n, rng.randint(n // 2, n), patch_p=rng.choice([0, 0, 0.2]))
+    return {'topo': topo, 'requests': None, 'groups': None, 'kind': 'vector'}
+
+
+def gen_shapes_case(rng):
+    n = rng.choice([4, 4, 5, 5, 6])
+    topo = gen_topo(rng, n, rng.randint(n - 1, n + 2))
+    return {'topo': topo, 'requests': None, 'groups': None, 'kind': 'shapes'}
+
+
+def link_elements(sp, mid):
+    """number of elements of a designed link from its description (boosters / in-line / pre-amplifiers are added by the
+    auto-design where nothing is declared; spans here are short, never split)"""
+    if not sp:
+        return 1
+    return 1 + sum(1 + (2 if mid[k:k + 1] == 'G' else 1) for k in range(len(sp)))
+
+
+def gen_cutoff_case(rng, target):
+    """two routes between A and B: the direct line and a chain over 2-4 sites whose A -> B element count (transceivers
+    included) is `target`, around the documented search cut-off of compute_path_dsjctn (80 links = 81 elements); a pair
+    of requests A -> B declared disjoint needs that long candidate.  Both parities are reached with a Fused + declared
+    amplifier after a span ('G')."""
+    m = rng.randint(2, 4)
+    chain = ['A'] + [site_name_(2 + i) for i in range(m)] + ['B']
+
+    def mk(k):
+        return [60 * rng.randint(20, 900) for _ in range(k)]
+    lines = [{'a': 'A', 'b': 'B', 'ab': mk(1), 'ba': mk(1), 'mab': '-', 'mba': '-'}]
+    descr = []
+    for x, y in zip(chain, chain[1:]):
+        k = rng.randint(1, 3)
+        descr.append({'x': x, 'y': y, 'sp': mk(k), 'mid': ''.join(rng.choice('--A-F') for _ in range(k))})
+
+    def total():
+        return 2 + len(chain) + sum(link_elements(d['sp'], d['mid']) for d in descr)
+    guard = 0
+    while total() != target and guard < 200:
+        guard += 1
+        d = rng.choice(descr)
+        diff = target - total()
+        if diff >= 2:
+            d['sp'].append(60 * rng.randint(20, 900))
+            d['mid'] += rng.choice('--A-F')
+        elif diff == 1:
+            ks = [k for k in range(len(d['mid'])) if d['mid'][k] != 'G']
+            if ks:
+                k = rng.choice(ks)
+                d['mid'] = d['mid'][:k] + 'G' + d['mid'][k + 1:]
+        elif diff == -1:
+            ks = [k for k in range(len(d['mid'])) if d['mid'][k] == 'G']
+            if ks:
+                k = rng.choice(ks)
+                d['mid'] = d['mid'][:k] + '-' + d['mid'][k + 1:]
+            elif len(d['sp']) > 1:
+                d['sp'].pop()
+                d['mid'] = d['mid'][:-1]
+        elif len(d['sp']) > 1:
+            d['sp'].pop()
+            d['mid'] = d['mid'][:-1]
+    for d in descr:
+        a, b = sorted((d['x'], d['y']))
+        fwd = (d['x'], d['y']) == (a, b)
+        k = rng.randint(1, 2)
+        back_sp, back_mid = mk(k), ''.join(rng.choice('--A') for _ in range(k))
+        lines.append({'a': a, 'b': b, 'ab': d['sp'] if fwd else back_sp, 'ba': back_sp if fwd else d['sp'],
+                      'mab': d['mid'] if fwd else back_mid, 'mba': back_mid if fwd else d['mid']})
+    topo = {'n': 2 + m, 'lines': lines}
+    rev = rng.random() < 0.25
+    reqs = [{'id': '0', 'src': 'trx A', 'dst': 'trx B', 'nodes': [], 'loose': [], 'style': 'cutoff', 'mode': 'mode 1',
+             'bidir': False},
+            {'id': '1', 'src': 'trx B' if rev else 'trx A', 'dst': 'trx A' if rev else 'trx B', 'nodes': [], 'loose': [],
+             'style': 'cutoff', 'mode': None, 'bidir': False}]
+    return {'topo': topo, 'requests': reqs, 'groups': [{'id': 'd0', 'reqs': ['0', '1']}], 'kind': 'cutoff',
+            'target': target}
+
+
+def site_name_(i):
+    return c11.site_name(i)
 
 
 # ------------------------------------------------------------------ gnpy driver
@@ -332,9 +494,91 @@ def judge(ctx, N, case, reqs, groups, obs, line):
         ctx.count('outcome_exception')
         flags['exc'] = obs.get('exc', '')
         ctx.violation('exception', f'{obs.get("exc")} (neither paths nor DisjunctionError)', case, flags=flags)
+    # ---- include clause of C11 for the two members of a single vector (LOOSE hops are dropped only when no disjoint
+    # pair crossing both lists exists; judged by the proved-complete exists_disjoint_pair)
+    w = f.get('w', '-').split(',')
+    if len(w) == 3 and not aggregated:
+        ex_all, ex_strict, full = w
+        if any(r['nodes'] for r in reqs):
+            ctx.count('vector_pairs_with_lists')
+        if ex_all == 'T':
+            ctx.count('vector_pairs_all_lists_satisfiable')
+            if v[0] == 'P' and 'F' in full:
+                ctx.violation('vector_member_include_dropped', 'a disjoint pair of routes crossing both include lists exists '
+                              f'(<= 80 links), yet a returned route does not cross its list (per member: {full})', case,
+                              flags=flags, paths=obs['paths'])
+            elif v[0] == 'E' and ex_strict != 'T':
+                ctx.corr_break('corr:Disjoint.exists_disjoint_pair', 'lists satisfiable but STRICT sub-lists not', case,
+                               impl=ex_strict, model=ex_all)
+        elif ex_strict == 'T' and v[0] == 'P':
+            ctx.count('vector_pairs_loose_lists_dropped_legitimately')
 
 
 # ------------------------------------------------------------------ run
+def process(ctx, rng, cases, prop, tag, isd_cases=None, short_terms=None, short_meta=None):
+    """build, drive, evaluate in Coq and judge a list of cases (also used by the C11 check for its vector stream)"""
+    chunk = 250                                               # bounded number of live gnpy networks
+    for k0 in range(0, len(cases), chunk):
+        terms, meta = [], []
+        for c in cases[k0:k0 + chunk]:
+            N = Net(c['topo'])
+            kind = c.get('kind', 'random')
+            if c.get('requests') is None:
+                reqs, groups = {'vector': gen_vector_batch, 'shapes': gen_shapes_batch}.get(kind, gen_batch)(rng, N)
+            else:
+                reqs, groups = c['requests'], c['groups']
+            case = {'topo': c['topo'], 'requests': reqs, 'groups': groups}
+            obs = drive(N, reqs, groups)
+            if obs['out'] == 'skip':
+                ctx.count('skipped_service_error')
+                continue
+            nontriv = len(groups) > 1 or any(r['nodes'] for r in reqs) or len(obs['ids']) < len(reqs)
+            ctx.case(case, nontriv)
+            ctx.count('stream_' + kind)
+            ctx.count('groups_%d' % len(groups))
+            ctx.count('group_sizes', sum(len(g['reqs']) for g in groups))
+            for r in reqs:
+                ctx.count('style_' + r['style'])
+            if kind == 'cutoff':
+                # element count of the long candidate, measured on the built network
+                s_, t_ = N.id['trx A'], N.id['trx B']
+                lens = sorted(len(p) for p in all_simple_ids(N, s_, t_))
+                ctx.count('cutoff_long_candidate_%d_elements' % (lens[-1] if lens else 0))
+                if not lens or lens[-1] != c.get('target'):
+                    ctx.count('cutoff_target_not_met')
+            terms.append(coq_term(N, reqs, groups, obs))
+            meta.append((N, case, reqs, groups, obs))
+            # isdisjoint on the lists gnpy really compared, and the short list of the first candidates of each request
+            if isd_cases is not None and len(isd_cases) < ctx.scale(3000, 12000):
+                for p1, p2, res in obs['isd_calls']:
+                    isd_cases.append((p1, p2, res, case))
+            if short_terms is not None and obs['isd_calls'] and obs['frp'] and len(short_terms) < ctx.scale(24, 300):
+                by = {}
+                for fwd, rev in obs['frp']:
+                    by.setdefault((fwd[0], fwd[-1]), []).append((fwd, rev))
+                sel = [p for lst in by.values() for pr in lst[:8] for p in pr]
+                short_terms.append(f'run_short {N.coq_graph()} {N.coq_kinds()} {N.coq_oms()} {listlit([zl(p) for p in sel])}')
+                short_meta.append((case, {'isd_calls': obs['isd_calls']}))
+            obs.pop('frp', None)
+        lines = common.coq_eval(prop, 'Prelude Model.Route Model.Disjoint Run.C11 Run.C12', terms, per_file=16, tag=tag)
+        for (N, case, reqs, groups, obs), line in zip(meta, lines):
+            judge(ctx, N, case, reqs, groups, obs, line)
+        del terms, meta
+
+
+def all_simple_ids(N, s, t, limit=2000):
+    out, stack = [], [(s, [s])]
+    while stack and len(out) < limit:
+        u, p = stack.pop()
+        if u == t:
+            out.append(p)
+            continue
+        for v, _ in N.adj[u]:
+            if v not in p:
+                stack.append((v, p + [v]))
+    return out
+
+
 def run(ctx):
     rng = ctx.rng
     ctx.proof = common.check_props('C12')
@@ -349,46 +593,12 @@ def run(ctx):
     else:
         for fpath in sorted(glob.glob(os.path.join(common.VERIF, 'corpus', 'C12', '*.json'))):
             cases.append(json.load(open(fpath)))
-        cases += [gen_case(rng) for _ in range(ctx.scale(170, 3000))]
+        cases += [gen_case(rng) for _ in range(ctx.scale(130, 2400))]
+        cases += [gen_vector_case(rng) for _ in range(ctx.scale(25, 400))]
+        cases += [gen_shapes_case(rng) for _ in range(ctx.scale(20, 400))]
+        cases += [gen_cutoff_case(rng, 77 + (k % 8)) for k in range(ctx.scale(8, 64))]
     isd_cases, short_terms, short_meta = [], [], []
-    chunk = 250                                               # bounded number of live gnpy networks
-    for k0 in range(0, len(cases), chunk):
-        terms, meta = [], []
-        for c in cases[k0:k0 + chunk]:
-            N = Net(c['topo'])
-            if c.get('requests') is None:
-                reqs, groups = gen_batch(rng, N)
-            else:
-                reqs, groups = c['requests'], c['groups']
-            case = {'topo': c['topo'], 'requests': reqs, 'groups': groups}
-            obs = drive(N, reqs, groups)
-            if obs['out'] == 'skip':
-                ctx.count('skipped_service_error')
-                continue
-            nontriv = len(groups) > 1 or any(r['nodes'] for r in reqs) or len(obs['ids']) < len(reqs)
-            ctx.case(case, nontriv)
-            ctx.count('groups_%d' % len(groups))
-            ctx.count('group_sizes', sum(len(g['reqs']) for g in groups))
-            for r in reqs:
-                ctx.count('style_' + r['style'])
-            terms.append(coq_term(N, reqs, groups, obs))
-            meta.append((N, case, reqs, groups, obs))
-            # isdisjoint on the lists gnpy really compared, and the short list of the first candidates of each request
-            if len(isd_cases) < ctx.scale(3000, 12000):
-                for p1, p2, res in obs['isd_calls']:
-                    isd_cases.append((p1, p2, res, case))
-            if obs['isd_calls'] and obs['frp'] and len(short_terms) < ctx.scale(24, 300):
-                by = {}
-                for fwd, rev in obs['frp']:
-                    by.setdefault((fwd[0], fwd[-1]), []).append((fwd, rev))
-                sel = [p for lst in by.values() for pr in lst[:8] for p in pr]
-                short_terms.append(f'run_short {N.coq_graph()} {N.coq_kinds()} {N.coq_oms()} {listlit([zl(p) for p in sel])}')
-                short_meta.append((case, {'isd_calls': obs['isd_calls']}))
-            obs.pop('frp', None)
-        lines = common.coq_eval('C12', 'Prelude Model.Route Model.Disjoint Run.C11 Run.C12', terms, per_file=16)
-        for (N, case, reqs, groups, obs), line in zip(meta, lines):
-            judge(ctx, N, case, reqs, groups, obs, line)
-        del terms, meta
+    process(ctx, rng, cases, 'C12', 'cases', isd_cases, short_terms, short_meta)
     # ---- isdisjoint correspondence (real arguments + random integer lists)
     for _ in range(ctx.scale(200, 3000)):
         a = [rng.randint(0, 6) for _ in range(rng.randint(0, 7))]
